@@ -1028,11 +1028,13 @@ func (interp *Interpreter) cfg(root *node, sc *scope, importPath, pkgName string
 			wireChild(n)
 			nilSym := interp.universe.sym[nilIdent]
 			c0, c1 := n.child[0], n.child[1]
+			untyped := untypedExprs(n.child)
 
 			err = check.binaryExpr(n)
 			if err != nil {
 				break
 			}
+			fixUntypedExprs(untyped, sc)
 
 			switch n.action {
 			case aRem:
@@ -1104,7 +1106,12 @@ func (interp *Interpreter) cfg(root *node, sc *scope, importPath, pkgName string
 					fixUntyped(n, t, sc)
 				}
 			case n.typ != nil && !n.typ.untyped:
-				fixUntyped(n, n.typ, sc)
+				t := n.typ
+				if isInterface(t) && t.val != nil {
+					// The value stored in an interface is computed in the default type of the operands.
+					t = t.val.defaultType(reflect.Value{}, sc)
+				}
+				fixUntyped(n, t, sc)
 			}
 
 		case indexExpr:
@@ -1190,7 +1197,11 @@ func (interp *Interpreter) cfg(root *node, sc *scope, importPath, pkgName string
 			n.findex = sc.add(n.typ)
 			typ := t.TypeOf()
 			if typ.Kind() == reflect.Map {
+				untyped := untypedExprs(n.child[1:])
 				err = check.assignment(n.child[1], t.key, "map index")
+				if err == nil {
+					fixUntypedExprs(untyped, sc)
+				}
 				n.gen = getIndexMap
 				break
 			}
@@ -1254,9 +1265,11 @@ func (interp *Interpreter) cfg(root *node, sc *scope, importPath, pkgName string
 				err = n.cfgErrorf("invalid operation: cannot send to receive-only channel %s", n.child[0].typ.id())
 				break
 			}
+			untyped := untypedExprs(n.child[1:])
 			if err = check.assignment(n.child[1], chanElement(n.child[0].typ), "send"); err != nil {
 				break
 			}
+			fixUntypedExprs(untyped, sc)
 			fallthrough
 
 		case declStmt, exprStmt:
@@ -1359,10 +1372,12 @@ func (interp *Interpreter) cfg(root *node, sc *scope, importPath, pkgName string
 
 			case isBuiltinCall(n, sc):
 				bname := c0.ident
+				untyped := untypedExprs(n.child[1:])
 				err = check.builtin(bname, n, n.child[1:], n.action == aCallSlice)
 				if err != nil {
 					break
 				}
+				fixUntypedExprs(untyped, sc)
 
 				n.gen = c0.sym.builtin
 				c0.typ = &itype{cat: builtinT, name: bname}
@@ -1462,10 +1477,12 @@ func (interp *Interpreter) cfg(root *node, sc *scope, importPath, pkgName string
 				}
 
 			case isBinCall(n, sc):
+				untyped := untypedExprs(n.child[1:])
 				err = check.arguments(n, n.child[1:], c0, n.action == aCallSlice)
 				if err != nil {
 					break
 				}
+				fixUntypedExprs(untyped, sc)
 
 				n.gen = callBin
 				typ := c0.typ.rtype
@@ -1527,10 +1544,12 @@ func (interp *Interpreter) cfg(root *node, sc *scope, importPath, pkgName string
 					c0 = n.child[0]
 				}
 
+				untyped := untypedExprs(n.child[1:])
 				err = check.arguments(n, n.child[1:], c0, n.action == aCallSlice)
 				if err != nil {
 					break
 				}
+				fixUntypedExprs(untyped, sc)
 
 				if c0.action == aGetFunc {
 					// Allocate a frame entry to store the anonymous function definition.
@@ -2545,6 +2564,36 @@ func (interp *Interpreter) cfg(root *node, sc *scope, importPath, pkgName string
 	return initNodes, err
 }
 
+// untypedExprs returns the nodes of list which are non-constant untyped expressions: the shift
+// of an untyped constant by a variable count, or an operation on such operands.
+func untypedExprs(list []*node) (res []*node) {
+	for _, n := range list {
+		if n.typ == nil || !n.typ.untyped || n.rval.IsValid() {
+			continue
+		}
+		switch n.kind {
+		case binaryExpr, parenExpr, unaryExpr:
+			res = append(res, n)
+		}
+	}
+	return res
+}
+
+// fixUntypedExprs completes the implicit conversion, by the type checker, of the non-constant
+// untyped expressions in list: the frame location of a converted expression takes its type,
+// as do its untyped operands.
+func fixUntypedExprs(list []*node, sc *scope) {
+	for _, n := range list {
+		if n.typ.untyped {
+			continue
+		}
+		if n.findex >= 0 {
+			sc.types[n.findex] = n.typ.frameType()
+		}
+		fixUntyped(n, n.typ, sc)
+	}
+}
+
 // fixUntyped propagates implicit type conversions for untyped binary expressions.
 func fixUntyped(nod *node, typ *itype, sc *scope) {
 	nod.Walk(func(n *node) bool {
@@ -2552,7 +2601,7 @@ func fixUntyped(nod *node, typ *itype, sc *scope) {
 			// The operands of a nested comparison are typed by that comparison.
 			return false
 		}
-		if n == nod || (n.kind != binaryExpr && n.kind != parenExpr) || !n.typ.untyped {
+		if n == nod || (n.kind != binaryExpr && n.kind != parenExpr && n.kind != unaryExpr) || !n.typ.untyped {
 			return true
 		}
 		n.typ = typ
